@@ -1040,6 +1040,22 @@ class Env:
                                     f"modelled by the analyser")
         if name in BUILTINS:
             return BUILTINS[name]
+        # ``from .sibling import helper``: a function / class / constant of
+        # another module of the repository is loaded from that module's
+        # syntax tree (with the same externals)
+        if name in self.imported:
+            from .normalize import resolve_from_import
+            r = resolve_from_import(self.interp.repo, self.rel, name)
+            if r is not None and r[0] != self.rel:
+                key = (r[0], id(self.ext))
+                envs = self.interp.__dict__.setdefault("_import_envs", {})
+                env2 = envs.get(key)
+                if env2 is None:
+                    env2 = Env(self.interp, r[0], self.ext)
+                    envs[key] = env2
+                v = env2.lookup(r[1])
+                self.cache[name] = v
+                return v
         raise AnalysisError(
             f"{self.rel}: name `{name}` is not modelled by the analyser")
 
